@@ -85,6 +85,14 @@ def gen_default(rng):
 def gen_fn(rng):
     if rng.random() < 0.1:
         return gen_default(rng)
+    if rng.random() < 0.08:
+        # loads switched to an explicit 0 in one phase (and left out of their table in another) on a rail that violates their input-voltage
+        # window: a load that is listed for a phase is judged in that phase, whatever value it is listed with
+        d = gen.zero_vs_omitted(rng)
+        for c in d["comps"]:
+            if c["kind"] in ("pload", "iload"):
+                c["args"]["limits"] = {"vi": [0.0, 1e-3]} if rng.random() < 0.7 else {"vi": [1e3, 1e4]}
+        return d
     for _ in range(20):
         # no build detours here: limits sit exactly on cell values, so the float summation order of the children must be the plain one
         base = gen.gen_system(rng, phases=0.4, p_rt=0.6, max_nodes=14, p_neg_src_rs=0.0, n_sources=rng.choice([1, 1, 2, 3]), p_detour=0.0, p_bridge=0.0, p_moved=0.0)
